@@ -75,7 +75,7 @@ def run(tier="quick", seed=0, use_cache=True):
     res.floor("cursor key acquire/release events", cur_ev, 50)
     res.count("CURSOR-HOLD", cur_ev)
     slot = sum(r["stats"]["slot_stores"] for r in out.values())
-    res.floor("key/value slot copies in object families", slot, 100)
+    res.floor("key/value slot copies in object families", slot, 60)
     res.count("SLOT-PAIR", slot)
     res.floor("in-place slot release sites incl. accepted idioms (OO)", oo["slot_release_sites"], 3)
     res.floor("releases of references taken out of a node slot (OO)", oo["slot_takeover_releases"], 3)
@@ -86,7 +86,7 @@ def run(tier="quick", seed=0, use_cache=True):
     for r in out.values():
         acc |= set(r["stats"]["attached_accepted"])
     res.extra["release_attached_accepted_idioms"] = sorted(acc)
-    res.floor("unchecked SET_ITEM sites (OO)", oo["setitem_sites"], 14)
+    res.floor("unchecked SET_ITEM sites (OO)", oo["setitem_sites"], 10)
     res.count("SETITEM-FRESH", sum(r["stats"]["setitem_sites"] for r in out.values()))
     res.count("SPLIT-COMMIT", sum(r["stats"]["split_sites"] for r in out.values()))
     res.extra["cursor_accepted_idioms"] = oo["cursor"].get("accepted")
